@@ -51,6 +51,9 @@ inductive Err where
   | noAsynq       -- AttributeError: no attribute `asynq`
   | typeError     -- TypeError raised by the call machinery itself (object not callable, missing `self`)
   | notFuture     -- AttributeError: `.value()` of / yield of something that is not a future
+  | skipped       -- not an error of the library: the convention is not run on this case (the second call of the
+                  -- conventions `sibling` / `siblingCall` / `prior` would be IDENTICAL to the observed one; how often
+                  -- a body runs for identical calls is the subject of C12 / C13, not of C09)
   deriving Repr, DecidableEq, Inhabited
 
 /-- what a call expression evaluates to -/
@@ -102,11 +105,12 @@ inductive DecCls where
 inductive Obj where
   | pyNone                                 -- None
   | func (b : Body)                        -- a plain Python function written by the user
-  | fwd (needSelf : Bool) (mark : Bool) (target : Obj)
+  | fwd (needSelf : Bool) (mark : Bool) (cached : Bool) (target : Obj)
       -- generator function of a tools wrapper / of a make_async_decorator wrapper_fn:
-      --   def w(*args, **kwargs): return (yield target.asynq(*args, **kwargs))               (aretry, alru_cache)
-      --   def w(self, *args, **kwargs): return (yield target.asynq(self, *args, **kwargs))   (acached_per_instance)
+      --   def w(*args, **kwargs): return (yield target.asynq(*args, **kwargs))               (aretry)
+      --   def w(self, *args, **kwargs): return (yield target.asynq(self, *args, **kwargs))   (needSelf: acached_per_instance)
       --   def w(*args, **kwargs): return wrap((yield target.asynq(*args, **kwargs)))         (mark: a user wrapper_fn)
+      --   cached (alru_cache, acached_per_instance): `try: return cache[key]` first, `cache[key] = value` afterwards
   | smethod (f : Obj)                      -- staticmethod(f)
   | cmethod (f : Obj)                      -- classmethod(f)
   | boundm (recv : Nat) (f : Obj)          -- bound method object
@@ -128,7 +132,7 @@ def Obj.decCls? : Obj → Option DecCls
     built here one decorator exists per user body, so the body's identity stands for the object's -/
 def Obj.ident : Obj → Nat
   | .func b => b.id
-  | .fwd _ _ t => t.ident
+  | .fwd _ _ _ t => t.ident
   | .smethod f => f.ident
   | .cmethod f => f.ident
   | .boundm _ f => f.ident
@@ -152,7 +156,7 @@ def mkDec (c : DecCls) (fn aux : Obj) : Obj :=
 def pyGet (o : Obj) (owner : Option Nat) (cls : Nat) : Obj :=
   match o with
   | .func b => match owner with | some i => .boundm i (.func b) | none => .func b
-  | .fwd s m t => match owner with | some i => .boundm i (.fwd s m t) | none => .fwd s m t
+  | .fwd s m c t => match owner with | some i => .boundm i (.fwd s m c t) | none => .fwd s m c t
   | .smethod f => f
   | .cmethod f => .boundm cls f
   | o => o
@@ -187,19 +191,41 @@ def descrGet (o : Obj) (owner : Option Nat) (cls : Nat) : Obj :=
 /-- qcore.inspection.is_cython_or_generator(fn) as used for `needs_wrapper` (decorators.py:154) -/
 def needsWrapper : Obj → Bool
   | .func b => b.gen
-  | .fwd _ _ _ => true
+  | .fwd _ _ _ _ => true
   | _ => false
 
-/-! ## the in-flight table of deduplicate -/
+/-! ## the in-flight table of deduplicate, the caches of alru_cache / acached_per_instance -/
+
+/-- hashes of the components of a key tuple under `h` (the hash of every value token): CPython hashes a tuple from
+    the hashes of its elements, so two keys whose elements hash alike collide - `hash(-1) == hash(-2)`,
+    `hash(n) == hash(n + 2**61 - 1)`, user classes with a constant `__hash__` -/
+def Args.hashes (h : Nat → Nat) (a : Args) : List Nat × List (Nat × Nat) :=
+  (a.pos.map h, a.kw.map fun p => (p.1, h p.2))
+
+abbrev Table := List ((Nat × Args) × Reach)
+
+/-- `d[key]` of a Python dict whose keys are tuples of the value tokens: an entry is found when its hash equals the
+    hash of `key` AND it is the same key (identity or `==` of every component - argument values compare by identity
+    here).  Colliding hashes alone never make two keys one: `C09_dict_hash_irrelevant`. -/
+def dictFind (h : Nat → Nat) (l : Table) (k : Nat × Args) : Option Reach :=
+  (l.find? (fun e => decide ((e.1.1, e.1.2.hashes h) = (k.1, k.2.hashes h)) && decide (e.1 = k))).map (·.2)
 
 /-- `DeduplicateDecorator.tasks` restricted to tasks that are not running: key = (id(self.fn), keygetter(args, kwargs)).
-    `keyOf` is the keygetter (qcore.caching.get_args_tuple over the argspec, or user supplied): a parameter. -/
+    `keyOf` is the keygetter (qcore.caching.get_args_tuple over the argspec, or user supplied): a parameter.
+    `cache`: the LRUCache of alru_cache / the per-instance dictionaries of acached_per_instance, key =
+    (function, cache_key(args, kwargs)) (for acached_per_instance the receiver is part of `args`: one dictionary
+    per `id(self)`).  `hashOf`: the hash of every value token - ARBITRARY.  `raises`: the user's bodies raise
+    (scripted input; an exception is never cached). -/
 structure Env where
   keyOf : Args → Args
-  tasks : List ((Nat × Args) × Reach)
+  tasks : Table
+  cache : Table := []
+  hashOf : Nat → Nat := id
+  raises : Bool := false
 
-def Env.lookup (env : Env) (k : Nat × Args) : Option Reach :=
-  (env.tasks.find? (fun e => e.1 = k)).map (·.2)
+def Env.lookup (env : Env) (k : Nat × Args) : Option Reach := dictFind env.hashOf env.tasks k
+
+def Env.cacheLookup (env : Env) (k : Nat × Args) : Option Reach := dictFind env.hashOf env.cache k
 
 def Env.empty : Env := { keyOf := id, tasks := [] }
 
@@ -216,11 +242,15 @@ def app (env : Env) : Mode → Obj → Args → Res
   -- user functions --------------------------------------------------------------------------------
   | .call, .func b, a => if b.retFut then .fut ⟨b.id, a, false⟩ else .val ⟨b.id, a, false⟩
   | .asynq, .func _, _ => .err .noAsynq
-  | .call, .fwd needSelf mark t, a =>
+  | .call, .fwd needSelf mark cached t, a =>
     -- `value = yield target.asynq(...)`; `return value` (a user wrapper_fn returns `wrap(value)`)
     if needSelf ∧ a.pos = [] then .err .typeError
-    else if mark then (app env .asynq t a).value.mark else (app env .asynq t a).value
-  | .asynq, .fwd _ _ _, _ => .err .noAsynq
+    else
+      -- alru_cache (tools.py:236-243) / acached_per_instance (tools.py:194-206): `try: return cache[key]`
+      match (if cached then env.cacheLookup (t.ident, env.keyOf a) else none) with
+      | some r => .val r
+      | none => if mark then (app env .asynq t a).value.mark else (app env .asynq t a).value
+  | .asynq, .fwd _ _ _ _, _ => .err .noAsynq
   | .call, .smethod f, a => app env .call f a                -- staticmethod objects are callable (3.10+)
   | .asynq, .smethod _, _ => .err .noAsynq
   | .call, .cmethod _, _ => .err .typeError                  -- 'classmethod' object is not callable
@@ -380,11 +410,11 @@ def build (k : Kind) (ft : FnType) (bk : BodyKind) (twin : Bool) : Obj :=
     wrapFt ft (.func { id := aid, gen := false, retFut := true, pureMark := true })
   | .pair => mkDec .pair (wrapFt ft f) (wrapFt ft sf)
   | .pairProxy => mkDec .pairProxy (wrapFt ft fp) sf
-  | .mad => mkDec .wrapper inner (mkDec .pure (.fwd false true inner) .pyNone)
+  | .mad => mkDec .wrapper inner (mkDec .pure (.fwd false true false inner) .pyNone)
   | .dedup => mkDec .dedup inner .pyNone
-  | .aretry => mkDec .async (.fwd false false inner) .pyNone
-  | .alru => mkDec .async (.fwd false false inner) .pyNone
-  | .acpi => mkDec .async (.fwd true false inner) .pyNone
+  | .aretry => mkDec .async (.fwd false false false inner) .pyNone
+  | .alru => mkDec .async (.fwd false false true inner) .pyNone
+  | .acpi => mkDec .async (.fwd true false true inner) .pyNone
 
 /-- tokens of the generated hierarchy: instance of Base, Base, instance of Sub, Sub (twin hierarchy: + 4) -/
 def tokInst (off : Nat) : Nat := 1 + off
@@ -411,6 +441,57 @@ def explicitSelf (ft : FnType) (acc : Access) (off : Nat) : List Nat :=
 def callerArgs (ft : FnType) (acc : Access) (off : Nat) (a : Args) : Args :=
   { a with pos := explicitSelf ft acc off ++ a.pos }
 
+/-- the generated body has a receiver parameter iff it lives in a class and is not a staticmethod -/
+def hasRecvParam (ft : FnType) (acc : Access) : Bool := acc != .direct && ft != .static
+
+/-! ### a SECOND call of the same decorated attribute (conventions `sibling`, `siblingCall`, `prior`) -/
+
+/-- how the second call differs from the observed one -/
+inductive Rel where
+  | args     -- same callable, same receiver; every argument VALUE replaced by another object (same spelling)
+  | recv     -- same argument objects; another receiver: the same attribute fetched through a second instance of the
+             -- same class (instance methods; the explicit `self` of an unbound method) or through the other class
+             -- of the hierarchy (classmethods).  Callables without a receiver fall back to `args`.
+  deriving Repr, DecidableEq, Inhabited
+
+/-- the value object that replaces value `v` in the second call -/
+def substTok (v : Nat) : Nat := v + 100
+
+def Args.subst (a : Args) : Args :=
+  { pos := a.pos.map substTok, kw := a.kw.map fun p => (p.1, substTok p.2) }
+
+/-- second instances of Base and of Sub -/
+def tokInst2 : Nat := 9
+def tokSubInst2 : Nat := 10
+
+def Access.swap : Access → Access
+  | .inst => .subInst | .subInst => .inst | .cls => .subCls | .subCls => .cls | .direct => .direct
+
+/-- the second call really uses another receiver -/
+def effRecv (rel : Rel) (ft : FnType) (acc : Access) : Bool := rel == .recv && hasRecvParam ft acc
+
+/-- the same attribute fetched for the second call (relation `recv`) -/
+def accessSib (o : Obj) (ft : FnType) (acc : Access) : Obj :=
+  match ft, acc with
+  | .plain, .inst => descrGet o (some tokInst2) (tokCls 0)
+  | .plain, .subInst => descrGet o (some tokSubInst2) (tokSubCls 0)
+  | .classm, acc => access o acc.swap 0
+  | _, acc => access o acc 0
+
+def explicitSelfSib (ft : FnType) (acc : Access) : List Nat :=
+  match ft, acc with
+  | .plain, .cls => [tokInst2]
+  | .plain, .subCls => [tokSubInst2]
+  | _, _ => []
+
+/-- the caller's arguments of the second call -/
+def sibCallerArgs (ft : FnType) (acc : Access) (rel : Rel) (a : Args) : Args :=
+  if effRecv rel ft acc then { a with pos := explicitSelfSib ft acc ++ a.pos } else callerArgs ft acc 0 a.subst
+
+/-- the second call would be the very same call (no receiver to vary, no argument to replace) -/
+def identicalSib (ft : FnType) (acc : Access) (rel : Rel) (a : Args) : Bool :=
+  !effRecv rel ft acc && a.pos.isEmpty && a.kw.isEmpty
+
 /-- the bindings each decorator is written for -/
 def supported (k : Kind) (ft : FnType) (acc : Access) : Bool :=
   (acc != .direct || ft == .plain) &&
@@ -432,16 +513,25 @@ inductive Cv where
   | getAsyncOrSync  -- `get_async_or_sync_fn(b)(*args)` (+ `.value()` if it is a future)
   | getAsyncFnWrap  -- `get_async_fn(b, wrap_if_none=True)(*args).value()`
   | twin            -- `yield [twin.asynq(*args), b.asynq(*args)]`: a same-named callable is in flight
+  | sibling         -- `yield [b'.asynq(*args'), b.asynq(*args)]`: a SECOND CALL OF THE SAME attribute is in flight
+  | siblingCall     -- `yield [async_call.asynq(b', *args'), async_call.asynq(b, *args)]`
+  | prior           -- `b'.asynq(*args').value()` completed (or failed) BEFORE `b.asynq(*args).value()`
   deriving Repr, DecidableEq, Inhabited
+
+/-- the conventions with a second call of the same attribute -/
+def Cv.isSib : Cv → Bool
+  | .sibling | .siblingCall | .prior => true
+  | _ => false
 
 def Cv.all : List Cv :=
   [.sync, .asynqValue, .yieldAsynq, .nestedSync, .asyncCall, .asyncCallSync, .getAsyncFn, .getAsyncOrSync,
-   .getAsyncFnWrap, .twin]
+   .getAsyncFnWrap, .twin, .sibling, .siblingCall, .prior]
 
 def Cv.name : Cv → String
   | .sync => "sync" | .asynqValue => "asynqValue" | .yieldAsynq => "yieldAsynq" | .nestedSync => "nestedSync"
   | .asyncCall => "asyncCall" | .asyncCallSync => "asyncCallSync" | .getAsyncFn => "getAsyncFn"
   | .getAsyncOrSync => "getAsyncOrSync" | .getAsyncFnWrap => "getAsyncFnWrap" | .twin => "twin"
+  | .sibling => "sibling" | .siblingCall => "siblingCall" | .prior => "prior"
 
 /-- result of a convention: futures that ran before (`pre`, the twin's), the result, "a future came back" -/
 structure CvRes where
@@ -473,8 +563,28 @@ def dedupEntry (env : Env) (o : Obj) (a : Args) : List ((Nat × Args) × Reach) 
      | _ => [])
   | _ => []
 
-/-- one convention on the callable `b` (`tb`, `ta`: the twin callable and its arguments) -/
-def runCv (env : Env) (cv : Cv) (b : Obj) (a : Args) (tb : Obj) (ta : Args) : CvRes :=
+/-- what a completed `o.asynq(*a).value()` leaves in the cache of alru_cache / acached_per_instance: the value
+    under the key of the call - unless the body raised (`value = yield ...` re-raises before `cache[key] = value`).
+    (A call whose arguments do not bind raises TypeError and stores nothing; the model stores an entry whose
+    replay would fail to bind in the same way, under a key no other spelling shares.) -/
+def cacheEntry (env : Env) (o : Obj) (a : Args) : Table :=
+  if env.raises then [] else
+  match o with
+  | .binder (.dec .async _ (.fwd needSelf _ true t) _) inst =>
+    if needSelf ∧ (a.pushOpt inst).pos = [] then [] else
+    (match (app env .asynq t (a.pushOpt inst)).value with
+     | .val r => [((t.ident, env.keyOf (a.pushOpt inst)), r)]
+     | _ => [])
+  | .dec .async _ (.fwd needSelf _ true t) _ =>
+    if needSelf ∧ a.pos = [] then [] else
+    (match (app env .asynq t a).value with
+     | .val r => [((t.ident, env.keyOf a), r)]
+     | _ => [])
+  | _ => []
+
+/-- one convention on the callable `b` (`tb`, `ta`: the twin callable and its arguments; `sb`, `sa`: the callable
+    and the arguments of the second call of the same attribute) -/
+def runCv (env : Env) (cv : Cv) (b : Obj) (a : Args) (tb : Obj) (ta : Args) (sb : Obj) (sa : Args) : CvRes :=
   match cv with
   | .sync | .nestedSync => let (r, f) := valueOf (app env .call b a); ⟨[], r, f⟩
   | .asynqValue | .yieldAsynq => ⟨[], (app env .asynq b a).value, false⟩
@@ -490,6 +600,21 @@ def runCv (env : Env) (cv : Cv) (b : Obj) (a : Args) (tb : Obj) (ta : Args) : Cv
     let t1 := app env .asynq tb ta
     let env' : Env := { env with tasks := dedupEntry env tb ta ++ env.tasks }
     ⟨[t1.value], (app env' .asynq b a).value, false⟩
+  | .sibling =>
+    -- both futures are created before either runs: the first is in `DeduplicateDecorator.tasks` when the second
+    -- `.asynq(...)` looks its key up
+    let t1 := app env .asynq sb sa
+    let env' : Env := { env with tasks := dedupEntry env sb sa ++ env.tasks }
+    ⟨[t1.value], (app env' .asynq b a).value, false⟩
+  | .siblingCall =>
+    let t1 := asyncCall env sb sa
+    let env' : Env := { env with tasks := dedupEntry env sb sa ++ env.tasks }
+    ⟨[t1.value], (asyncCall env' b a).value, false⟩
+  | .prior =>
+    -- the first call has completed: its entry left `tasks` (callback on_computed), its value stays in the cache
+    let t1 := app env .asynq sb sa
+    let env' : Env := { env with cache := cacheEntry env sb sa ++ env.cache }
+    ⟨[t1.value], (app env' .asynq b a).value, false⟩
 
 /-- a whole cell of the table -/
 structure Cell where
@@ -504,9 +629,22 @@ def twinOff : Nat := 4
 def Cell.callable (c : Cell) : Obj := access (build c.kind c.ft c.bk false) c.acc 0
 def Cell.twinCallable (c : Cell) : Obj := access (build c.kind c.ft c.bk true) c.acc twinOff
 
-/-- MODEL: convention `cv` on cell `c` with the caller's arguments `a` -/
-def modelCv (env : Env) (c : Cell) (cv : Cv) (a : Args) : CvRes :=
+/-- the attribute as fetched for the second call -/
+def Cell.sibCallable (c : Cell) (rel : Rel) : Obj :=
+  if effRecv rel c.ft c.acc then accessSib (build c.kind c.ft c.bk false) c.ft c.acc else c.callable
+
+/-- a convention that is not run on a case -/
+def CvRes.skipped : CvRes := ⟨[], .err .skipped, false⟩
+
+/-- the convention as run -/
+def modelCvRun (env : Env) (c : Cell) (cv : Cv) (a : Args) (rel : Rel) : CvRes :=
   runCv env cv c.callable (callerArgs c.ft c.acc 0 a) c.twinCallable (callerArgs c.ft c.acc twinOff a)
+    (c.sibCallable rel) (sibCallerArgs c.ft c.acc rel a)
+
+/-- MODEL: convention `cv` on cell `c` with the caller's arguments `a` (`rel`: how the second call of the
+    conventions `sibling` / `siblingCall` / `prior` differs; they are skipped when it would not differ) -/
+def modelCv (env : Env) (c : Cell) (cv : Cv) (a : Args) (rel : Rel := .args) : CvRes :=
+  if cv.isSib && identicalSib c.ft c.acc rel a then CvRes.skipped else modelCvRun env c cv a rel
 
 /-! ## reference semantics: how an UNDECORATED Python function of that type binds, plus the one exception -/
 
@@ -528,6 +666,19 @@ def refPrefix (ft : FnType) (acc : Access) (off : Nat) : List Nat :=
 def refArgs (ft : FnType) (acc : Access) (off : Nat) (a : Args) : Args :=
   { a with pos := refPrefix ft acc off ++ (explicitSelf ft acc off ++ a.pos) }
 
+/-- what Python prepends for the SECOND call of relation `recv` -/
+def refPrefixSib (ft : FnType) (acc : Access) : List Nat :=
+  match ft, acc with
+  | .plain, .inst => [tokInst2]
+  | .plain, .subInst => [tokSubInst2]
+  | .classm, acc => refPrefix .classm acc.swap 0
+  | ft, acc => refPrefix ft acc 0
+
+/-- the arguments the body must receive in the second call -/
+def refArgsSib (ft : FnType) (acc : Access) (rel : Rel) (a : Args) : Args :=
+  if effRecv rel ft acc then { a with pos := refPrefixSib ft acc ++ (explicitSelfSib ft acc ++ a.pos) }
+  else refArgs ft acc 0 a.subst
+
 def Kind.hasSyncFn : Kind → Bool
   | .pair | .pairProxy => true
   | _ => false
@@ -547,8 +698,9 @@ def Kind.hasAsynq : Kind → Bool
   | .raw | .pure | .proxyPure => false
   | _ => true
 
-/-- REFERENCE: the statement of C09 as a table -/
-def refCv (c : Cell) (cv : Cv) (a : Args) : CvRes :=
+/-- REFERENCE: the statement of C09 as a table (`refCv` below: the same, minus the conventions that are not run) -/
+def refCvRun (c : Cell) (cv : Cv) (a : Args) (rel : Rel) : CvRes :=
+  let sib : Reach := ⟨1, refArgsSib c.ft c.acc rel a, c.kind.userWrapped⟩
   let own : Reach := ⟨1, refArgs c.ft c.acc 0 a, c.kind.userWrapped⟩
   let sync : Reach := ⟨2, refArgs c.ft c.acc 0 a, false⟩
   let tw : Reach := ⟨3, refArgs c.ft c.acc twinOff a, c.kind.userWrapped⟩
@@ -560,6 +712,14 @@ def refCv (c : Cell) (cv : Cv) (a : Args) : CvRes :=
   | .getAsyncOrSync => ⟨[], .val own, c.kind != .raw⟩
   | .getAsyncFnWrap => ⟨[], .val own, false⟩
   | .twin => if c.kind.hasAsynq then ⟨[.val tw], .val own, false⟩ else ⟨[.err .noAsynq], .err .noAsynq, false⟩
+  -- a second call of the same attribute - with another receiver or other argument objects, in flight or completed,
+  -- whatever their hashes - changes nothing: each call runs the body with ITS receiver and ITS arguments
+  | .sibling | .prior =>
+    if c.kind.hasAsynq then ⟨[.val sib], .val own, false⟩ else ⟨[.err .noAsynq], .err .noAsynq, false⟩
+  | .siblingCall => ⟨[.val sib], .val own, false⟩
+
+def refCv (c : Cell) (cv : Cv) (a : Args) (rel : Rel := .args) : CvRes :=
+  if cv.isSib && identicalSib c.ft c.acc rel a then CvRes.skipped else refCvRun c cv a rel
 
 /-- answers of the five helpers -/
 structure Cls where
@@ -591,7 +751,7 @@ structure Got where
 
 def shapeOf : Obj → Got
   | .func _ => ⟨.function, 0⟩
-  | .fwd _ _ _ => ⟨.function, 0⟩
+  | .fwd _ _ _ _ => ⟨.function, 0⟩
   | .boundm r _ => ⟨.method, r⟩
   | .dec _ _ _ _ => ⟨.decorator, 0⟩
   | .binder _ i => ⟨.binder, i.getD 0⟩
@@ -673,13 +833,11 @@ def mkSig (k : SigKind) (hasRecv : Bool) : Sig :=
   | .var => ⟨recv, true, [], true⟩
   | .mixed => ⟨recv ++ [(1, none), (2, some tokDB)], true, [(3, some tokDC)], true⟩
 
-/-- the generated body has a receiver parameter iff it lives in a class and is not a staticmethod -/
-def hasRecvParam (ft : FnType) (acc : Access) : Bool := acc != .direct && ft != .static
-
 /-! ## observations -/
 
 inductive ErrCls where
   | noAsynq | typeError | attrError | other
+  | skipped     -- the convention was not run (see `Err.skipped`)
   deriving Repr, DecidableEq, Inhabited
 
 inductive Outcome where
@@ -710,6 +868,7 @@ def Err.cls : Err → ErrCls
   | .noAsynq => .noAsynq
   | .typeError => .typeError
   | .notFuture => .attrError
+  | .skipped => .skipped
 
 /-- running a reached body: binding may fail (TypeError, body never entered) -/
 def execRes (s : Sig) (raises : Bool) (r : Res) : List Entry × Outcome :=
@@ -733,6 +892,21 @@ def obsOf (s : Sig) (raises : Bool) (cv : Cv) (x : CvRes) : Obs :=
   { cv := cv, log := (pre.map (·.1)).flatten ++ own.1, out := own.2,
     flag := x.flag && own.2 != .raised .typeError }
 
+/-- the kind of objects passed as argument values -/
+inductive ValKind where
+  | tok        -- plain objects: identity `__eq__` / `__hash__`
+  | chash      -- objects (and receivers: instances AND classes) whose `__hash__` is one constant: every two collide
+  | bigint     -- built-in ints `k` and, in the second call, `k + (2**61 - 1)`: different values, equal hashes
+  | tuple      -- built-in tuples `(-1, k)` and, in the second call, `(-2, k)`: `hash(-1) == hash(-2)`
+  | falsy      -- objects whose `__bool__` is False and `__len__` is 0
+  deriving Repr, DecidableEq, Inhabited
+
+/-- the hash of every value token under a value kind (second-call values are `v + 100`) -/
+def ValKind.hashOf : ValKind → Nat → Nat
+  | .tok | .falsy => id
+  | .chash => fun _ => 0
+  | .bigint | .tuple => fun v => v % 100
+
 structure Case where
   cell : Cell
   raises : Bool
@@ -740,6 +914,8 @@ structure Case where
   args : Args
   falsy : Bool := false          -- the generated instances and classes are falsy objects
   pre : List Access := []        -- look-ups of the same attribute performed BEFORE the observed access
+  rel : Rel := .args             -- how the second call of `sibling` / `siblingCall` / `prior` differs
+  vk : ValKind := .tok           -- what kind of objects the argument values (and receivers) are
   deriving Repr, DecidableEq, Inhabited
 
 def Case.theSig (c : Case) : Sig := mkSig c.sig (hasRecvParam c.cell.ft c.cell.acc)
@@ -751,12 +927,17 @@ structure Report where
   got : Nat            -- the receiver bound by attribute access (`binder.instance` / `method.__self__`), 0 = none
   deriving Repr, DecidableEq, Inhabited
 
-def report (cvf : Cell → Cv → Args → CvRes) (clsf : Cell → Cls) (gotf : Cell → Nat) (c : Case) : Report :=
-  { obs := Cv.all.map (fun cv => obsOf c.theSig c.raises cv (cvf c.cell cv c.args)),
+def report (cvf : Cell → Cv → Args → Rel → CvRes) (clsf : Cell → Cls) (gotf : Cell → Nat) (c : Case) : Report :=
+  { obs := Cv.all.map (fun cv => obsOf c.theSig c.raises cv (cvf c.cell cv c.args c.rel)),
     cls := clsf c.cell, got := gotf c.cell }
 
-def modelReport (c : Case) : Report := report (modelCv Env.empty) modelCls modelRecv c
-def refReport (c : Case) : Report := report refCv refCls refRecv c
+/-- the environment of a case: nothing in flight, nothing cached, the default key function; the hashes of the
+    value kind; whether the bodies raise -/
+def Case.env (c : Case) : Env :=
+  { keyOf := id, tasks := [], cache := [], hashOf := c.vk.hashOf, raises := c.raises }
+
+def modelReport (c : Case) : Report := report (fun cell cv a rel => modelCv c.env cell cv a rel) modelCls modelRecv c
+def refReport (c : Case) : Report := report (fun cell cv a rel => refCv cell cv a rel) refCls refRecv c
 
 /-! ## the property as a predicate over observations (no model object involved) -/
 
@@ -807,8 +988,20 @@ def available (k : Kind) (cv : Cv) : Bool :=
   | .asynqValue | .yieldAsynq | .twin => k.hasAsynq
   | .getAsyncFn => k != .raw
   | .asyncCall | .asyncCallSync | .getAsyncOrSync | .getAsyncFnWrap => true
+  | .sibling | .siblingCall | .prior => false     -- two calls: stated separately (`availableSib`, `C09_second_call`)
+
+/-- when a convention with a second call of the same attribute can be run at all -/
+def availableSib (k : Kind) (cv : Cv) : Bool :=
+  match cv with
+  | .sibling | .prior => k.hasAsynq
+  | .siblingCall => true
+  | _ => false
 
 /-- an environment in which no deduplicated task is in flight -/
 def Env.idle (keyOf : Args → Args) : Env := { keyOf := keyOf, tasks := [] }
+
+/-- nothing in flight, nothing cached; ARBITRARY key function, hashes and raising flag -/
+def Env.quiet (keyOf : Args → Args) (hashOf : Nat → Nat) (raises : Bool) : Env :=
+  { keyOf := keyOf, tasks := [], cache := [], hashOf := hashOf, raises := raises }
 
 end AsynqModel.Decorators
